@@ -117,6 +117,9 @@ class State:
         self.B = validate_loss_function(self.metric)
         self.fam, self.pairs = family(self.metric, self.A)
         self.sign = -1.0 if getattr(self.metric, 'bigger_is_better', False) else 1.0
+        # wrapper B always receives its predictions through ONE caller-owned dict, overwritten in place before every call
+        # (a model with a pre-allocated output buffer); wrapper A receives a fresh dict per call
+        self.buf = {}
 
 
 def s_letters(state):
@@ -139,6 +142,10 @@ def s_step(state, letter):
     else:
         y_true, y_pred = state.pairs[i]
         arg = dict(y_pred) if state.fam == 'dict' else {'output': y_pred}
+        if who == 'B':
+            state.buf.clear()
+            state.buf.update(arg)
+            arg = state.buf
         want = fresh_value(state.cls, y_true, y_pred)
         try:
             got = ('ok', (state.A if who == 'A' else state.B)(y_true, arg))
